@@ -313,6 +313,20 @@ def run_case(run, spec):
         if list(res) != [_expect_token(m) for m in model]:
             run.violation("getall-slowpath", f"utils.getall(stack,'x')={_short(res)} differs from the per-sample tokens {_short([_expect_token(m) for m in model])} (inner layers were asked before)")
             return
+        # a non-integer item (confidence / weight per sample) through all four helpers: values must survive every conversion
+        want_conf = [B.leaves[m[1]].conf_of(m[2]) for m in model]
+        for fn in (gat.getall, gat.getall_as_list, gat.getall_as_numpy, gat.getall_as_tensor):
+            ok, res = call_real(run, lambda: fn(ds, item="conf"), crash_key="getall-helper-crash", what=f"utils.{fn.__name__}(stack,'conf')")
+            if not ok:
+                return
+            try:
+                got_conf = [float(v) for v in res]
+            except Exception:
+                got_conf = None
+            if got_conf != want_conf:
+                run.violation("getall-helper-value:float-item", f"utils.{fn.__name__}(stack,'conf')={_short(res)} but the per-sample values are {_short(want_conf)}")
+                return
+            run.count("getall_checked")
         for fn in (gat.getall_as_list,):
             ok, res = call_real(run, lambda: fn(ds, item="x"), what="utils.getall_as_list(stack,'x')")
             if not ok:
